@@ -402,6 +402,8 @@ func runC05(c *Ctx) {
 	}
 	checkDownloadWrites(c, "roles.download-writes")
 	checkGenericErrorDiscipline(c, "pkg/core")
+	// Diff and Update read both bundles through the file-list / data fan-outs: a lost chunk of entries changes the diff
+	checkCoreFanouts(c)
 }
 
 // condShape abstracts the guards of diffBundles: "present" for the ok flag of a map lookup, "hash-differs" for a
